@@ -78,6 +78,9 @@ type stFn struct {
 	tyMap     map[string]string // Go type param -> Lean type
 	inCatch   bool
 	collectorOps []string
+	sumRight  string // element type injected with Sum.inr ("ε", or "Unit" for token channels); "" = "ε"
+	timed     bool   // sources family: sleep / recvSel / afterSel / forN are available
+	durNames  map[string]bool // int / time.Duration parameters usable as Nat values
 }
 
 func leanTy(fn *stFn, e ast.Expr) string {
@@ -133,6 +136,15 @@ func (fn *stFn) chanIdx(e ast.Expr) (string, *stChan) {
 	return "", nil
 }
 
+func (fn *stFn) chanIdxOpt(e ast.Expr) (string, *stChan) {
+	if x, ok := e.(*ast.Ident); ok {
+		if c, ok := fn.chans[x.Name]; ok {
+			return fmt.Sprint(c.idx), c
+		}
+	}
+	return "", nil
+}
+
 // f.Apply(a)  ->  "f a"
 func (fn *stFn) applyCall(e ast.Expr) (string, bool) {
 	c, ok := e.(*ast.CallExpr)
@@ -173,6 +185,9 @@ func (fn *stFn) val(e ast.Expr, monadic bool) string {
 			return id(x.Name)
 		}
 		if fn.boolVars[x.Name] {
+			return id(x.Name)
+		}
+		if fn.durNames[x.Name] {
 			return id(x.Name)
 		}
 	case *ast.BasicLit:
@@ -256,7 +271,11 @@ func (fn *stFn) inj(c *stChan, v string) string {
 	if !fn.sumOut {
 		return v
 	}
-	if c.elem == "ε" {
+	right := fn.sumRight
+	if right == "" {
+		right = "ε"
+	}
+	if c.elem == right {
 		return "(Sum.inr " + v + ")"
 	}
 	return "(Sum.inl " + v + ")"
@@ -363,6 +382,17 @@ func (fn *stFn) bindApply(lhs []ast.Expr, rhs ast.Expr, depth int) ([]string, bo
 		}
 		names = append(names, i.Name)
 	}
+	if fn.fKind == "F" && len(names) == 2 && len(c.Args) == 1 && fn.timed && names[0] == fn.stateVar && fn.stateVar != "" {
+		// seed, err = f.Apply(seed): both results are assigned, whatever err is
+		fn.usesF = true
+		fn.errVars[names[1]] = true
+		delete(fn.boundErr, names[1])
+		return []string{
+			fmt.Sprintf("%slet r__ := %s %s", ind(depth), id(fn.fName), fn.val(c.Args[0], true)),
+			fmt.Sprintf("%ssetS r__.1", ind(depth)),
+			fmt.Sprintf("%slet %s := r__.2", ind(depth), id(names[1])),
+		}, true
+	}
 	if fn.fKind == "F" && len(names) == 2 && len(c.Args) == 1 {
 		ap, _ := fn.applyCall(rhs)
 		out := []string{}
@@ -435,7 +465,40 @@ func (fn *stFn) stmt(st ast.Stmt, depth int, last bool) []string {
 			}
 			return []string{fmt.Sprintf("%ssetS ((← getS) %s 1)", p, op)}
 		}
+	case *ast.ForStmt:
+		// for i := 0; i < n; i++ { B }   (sources family)
+		if fn.timed && x.Init != nil && x.Cond != nil && x.Post != nil {
+			in, ok1 := x.Init.(*ast.AssignStmt)
+			cd, ok2 := x.Cond.(*ast.BinaryExpr)
+			po, ok3 := x.Post.(*ast.IncDecStmt)
+			if ok1 && ok2 && ok3 && in.Tok == token.DEFINE && len(in.Lhs) == 1 && len(in.Rhs) == 1 && src(in.Rhs[0]) == "0" &&
+				cd.Op == token.LSS && src(cd.X) == src(in.Lhs[0]) && po.Tok == token.INC && src(po.X) == src(in.Lhs[0]) {
+				cnt := src(in.Lhs[0])
+				bad := false
+				ast.Inspect(x.Body, func(n ast.Node) bool {
+					switch y := n.(type) {
+					case *ast.BranchStmt:
+						bad = true
+					case *ast.Ident:
+						if y.Name == cnt {
+							bad = true
+						}
+					}
+					return true
+				})
+				if bad {
+					sfail(st, "counted loop: break/continue/goto or a use of the counter inside the body")
+				}
+				out := []string{fmt.Sprintf("%sforN %s (do", p, fn.val(cd.Y, true))}
+				out = append(out, fn.block(x.Body.List, depth+2, false)...)
+				out[len(out)-1] += ")"
+				return out
+			}
+		}
 	case *ast.ExprStmt:
+		if r, n, args, ok := callName(x.X); ok && fn.timed && r == "time" && n == "Sleep" && len(args) == 1 {
+			return []string{fmt.Sprintf("%ssleep %s", p, fn.val(args[0], true))}
+		}
 		// f.Apply(x) with the results dropped
 		if ap, ok := fn.applyCall(x.X); ok {
 			_ = ap
@@ -515,8 +578,9 @@ func (fn *stFn) stmt(st ast.Stmt, depth int, last bool) []string {
 		return out
 	case *ast.SelectStmt:
 		var send *ast.SendStmt
-		var sendBody, doneBody, defBody []ast.Stmt
+		var sendBody, doneBody, defBody, recvBody []ast.Stmt
 		hasDone, hasDef := false, false
+		recvArm := ""
 		for _, cl := range x.Body.List {
 			cc := cl.(*ast.CommClause)
 			switch c := cc.Comm.(type) {
@@ -528,6 +592,18 @@ func (fn *stFn) stmt(st ast.Stmt, depth int, last bool) []string {
 				}
 				send, sendBody = c, cc.Body
 			case *ast.ExprStmt:
+				if fn.timed && !isCtxDone(c.X) && recvArm == "" {
+					if u, ok := c.X.(*ast.UnaryExpr); ok && u.Op == token.ARROW {
+						if r, n, args, ok := callName(u.X); ok && r == "time" && n == "After" && len(args) == 1 {
+							recvArm, recvBody = "afterSel "+fn.val(args[0], true), cc.Body
+							continue
+						}
+						if ci, _ := fn.chanIdxOpt(u.X); ci != "" {
+							recvArm, recvBody = "recvSel "+ci, cc.Body
+							continue
+						}
+					}
+				}
 				if !isCtxDone(c.X) || hasDone {
 					sfail(st, "unsupported select arm %s", src(c))
 				}
@@ -537,6 +613,13 @@ func (fn *stFn) stmt(st ast.Stmt, depth int, last bool) []string {
 			}
 		}
 		switch {
+		case recvArm != "" && send == nil && hasDone && !hasDef:
+			if len(recvBody) != 0 || !isBareReturn(doneBody, false) {
+				sfail(st, "select{recv|Done}: the receive arm must be empty and the Done arm a bare return")
+			}
+			return []string{p + recvArm}
+		case recvArm != "":
+			sfail(st, "unsupported select shape")
 		case send != nil && hasDone && !hasDef:
 			if len(sendBody) != 0 || !isBareReturn(doneBody, fn.inCatch) {
 				sfail(st, "select{send|Done}: the send arm must be empty and the Done arm a bare return")
@@ -1293,7 +1376,7 @@ func catchFamily(f *ast.File) string {
 					sfail(fd, "catch: unexpected signature (%s)", strings.Join(ps, ", "))
 				}
 				body := fn.block(fd.Body.List, 1, false)
-				fmt.Fprintf(&sb, "def %s_catch (err : ε) (exx : Nat) : BodyM σ (β ⊕ ε) Bool := do\n%s\n\n", tn.Name, strings.Join(body, "\n"))
+				fmt.Fprintf(&sb, "def %s_catch (err : ε) (exx : Nat) : %s σ (β ⊕ ε) Bool := do\n%s\n\n", tn.Name, monadName, strings.Join(body, "\n"))
 			}
 		}()
 	}
@@ -1301,6 +1384,9 @@ func catchFamily(f *ast.File) string {
 }
 
 var rejected []string
+
+// monad the catch methods are emitted in (BodyM for the stages family, BodyT for the sources family)
+var monadName = "BodyM"
 
 func stagesFamily(files []string) string {
 	if len(files) != 2 {
